@@ -5,6 +5,7 @@ CONSTANTS
   RunClasses = {1, 3}
   XClasses = {1, 2, 3, 4, 5, 6, 7, 8, 9, 10}
   Counts = {0, 1, 19, 20, 21, 39, 40, 41, 56, 57, 58, 59, 60, 61, 80}
+  LineCounts = {}
   Emit = TRUE
 INVARIANT EmitInv
 INVARIANT AgreeInv
